@@ -66,6 +66,10 @@ func (m *DomainMatcher) Add(labels [][]byte) {
 			currentNode.AddLeaf(label)
 		} else {
 			child := currentNode.GetOrAddChild(label)
+			if child == nil {
+				// A broader entry already covers this name.
+				return
+			}
 			currentNode = child
 		}
 	}
@@ -102,13 +106,14 @@ func (n *labelNode) AddLeaf(label []byte) {
 	}
 }
 
+// GetOrAddChild returns nil if label was added as a leaf.
 func (n *labelNode) GetOrAddChild(label []byte) *labelNode {
 	l := len(label)
 	if l <= 24 {
 		var key [24]byte
 		copy(key[:], label)
-		if child := n.s[key]; child != nil {
-			return child
+		if child, ok := n.s[key]; ok {
+			return child // nil if label is a leaf
 		}
 		if n.s == nil {
 			n.s = make(map[[24]byte]*labelNode)
@@ -118,8 +123,8 @@ func (n *labelNode) GetOrAddChild(label []byte) *labelNode {
 		return child
 	}
 
-	if child := n.l[string(label)]; child != nil { // this convert does not allocate
-		return child
+	if child, ok := n.l[string(label)]; ok { // this convert does not allocate
+		return child // nil if label is a leaf
 	}
 	if n.l == nil {
 		n.l = make(map[string]*labelNode)
